@@ -2,7 +2,7 @@
    first materialisation is exact, the buffered body is stable under every later
    operation on the family (further accesses, partial reads, copies, header
    rewrites), and the server stream is not touched again. *)
-From Verif Require Import lib.Base lib.ListX model.Stream model.Body model.ReqBody proofs.C04_proofs.
+From Verif Require Import lib.Base lib.ListX gen.Gen model.Stream model.Body model.ReqBody proofs.C04_proofs.
 
 (* ---- list helpers ---- *)
 Lemma nth_error_set_nth_eq {A} (l : list A) i x :
@@ -247,3 +247,42 @@ Example stable_nonvacuous :
   = [OutBytes [1;2]%N; OutNew 1; OutUnit; OutUnit; OutBytes [1;2;3;4;5]%N; OutUnit;
      OutBytes [9;9]%N; OutBytes [1;2;3;4;5]%N].
 Proof. vm_compute. reflexivity. Qed.
+
+(* ---- the model's header-rewrite steps are justified by the code's own table ----
+   OSetCL / OSetOther keep the buffered body: in the invalidation table extracted
+   from BaseRequest._on_env_changed the only key whose assignment drops the view
+   'body' is 'wsgi.input' (which the model handles as OSetInput), and the view
+   name is the one BodyMixin._body is cached under. *)
+Lemma views_dropped_In table key v :
+  In v (views_dropped table key) ->
+  exists e, In e table /\ entry_matches e key = true /\ In v (snd e).
+Proof.
+  induction table as [|e t IH]; cbn [views_dropped]; [intros []|].
+  destruct (entry_matches e key) eqn:E; intros H.
+  - exists e. split; [now left|]. split; assumption.
+  - destruct (IH H) as (e' & Hin & Hm & Hv). exists e'. split; [now right|]. split; assumption.
+Qed.
+
+Definition only_input_drops_body_b (table : list ((str * bool) * list str)) : bool :=
+  forallb (fun e => implb (existsb (str_eqb s_body_view) (snd e))
+                          (str_eqb (fst (fst e)) s_wsgi_input && negb (snd (fst e)))) table.
+
+Lemma only_new_input_drops_body_lemma :
+  forall key, drops_body Gen.env_changed_table key = true -> key = s_wsgi_input.
+Proof.
+  intros key H. unfold drops_body in H. apply existsb_exists in H.
+  destruct H as (v & Hv & Hb). apply str_eqb_eq in Hb. subst v.
+  destruct (views_dropped_In _ _ _ Hv) as (e & Hin & Hm & Hbody).
+  assert (Hall : only_input_drops_body_b Gen.env_changed_table = true) by (vm_compute; reflexivity).
+  unfold only_input_drops_body_b in Hall. rewrite forallb_forall in Hall. specialize (Hall e Hin).
+  assert (Hex : existsb (str_eqb s_body_view) (snd e) = true).
+  { apply existsb_exists. exists s_body_view. split; [exact Hbody | apply str_eqb_refl]. }
+  rewrite Hex in Hall. cbn [implb] in Hall. apply andb_true_iff in Hall. destruct Hall as [Hk Hp].
+  apply str_eqb_eq in Hk. apply negb_true_iff in Hp.
+  destruct e as [[k p] vs]. cbn [fst snd] in *. subst k p.
+  cbn [entry_matches] in Hm. now apply str_eqb_eq in Hm.
+Qed.
+
+Lemma body_view_is_cache_key :
+  Gen.body_cache_key = Gen.env_cache_prefix ++ s_body_view /\ Gen.body_property_rewinds_cached = true.
+Proof. split; reflexivity. Qed.
